@@ -639,9 +639,23 @@ Definition is_getter (h : hstate) (o : op) : bool :=
     [cached_wrapper]: acquire the decorator's RLock; look the key up; on a miss run the
     body (inside the lock) and then [setdefault]; release.  The body's behaviour is
     arbitrary: [bv n k] is what the [n]-th execution does for key [k]: [Some v] = returns
-    [v], [None] = raises (an aborted computation). *)
+    [v], [None] = raises (an aborted computation).
+
+    RESULTS INCLUDE PYTHON'S [None] (how this library reports an undetermined terminal
+    fact): a result is an [mres = option Z], Python's [None] being Coq's [None]; a cache
+    ENTRY holding the result [r] is [Some r], so an entry holding [None] ([Some None]) is
+    distinct from an ABSENT entry ([None]).  [cache[arguments]] raises [KeyError] only
+    for an absent key, [utils.py:181-184]: an entry holding [None] is a hit like any
+    other, and [setdefault] stores only for an absent key.
+
+    [mstep_gen true] is the VARIANT of the wrapper that uses [None] as its "not cached
+    yet" sentinel ([result = cache.get(arguments); if result is None: result =
+    cache[arguments] = func(...)]); it exists only to state that it refutes
+    [memo_body_once] (sequentially).  [mstep] is [mstep_gen false], the real code. *)
 
 Open Scope nat_scope.
+
+Definition mres := option Z.
 
 Inductive mcmd := MCall (k : nat) | MInval.
 
@@ -649,16 +663,16 @@ Inductive mpc :=
 | PIdle                 (* between commands *)
 | PLookup (k : nat)     (* lock held, about to evaluate [cache[arguments]] *)
 | PBody (k : nat)       (* KeyError: about to call [func] *)
-| PStore (k : nat) (v : Z)  (* about to [cache.setdefault(arguments, v)] *)
-| PRelease (r : option (nat * Z))   (* about to leave the [with lock] block, returning (key, value) *)
+| PStore (k : nat) (v : mres)  (* about to [cache.setdefault(arguments, v)] *)
+| PRelease (r : option (nat * mres))   (* about to leave the [with lock] block, returning (key, value) *)
 | PClear.               (* [invalidate]: lock held, about to [cache.clear()] *)
 
 (** [m_rets]: (epoch = number of invalidations so far, key, value) of every finished call *)
-Record mthread := { m_pc : mpc; m_todo : list mcmd; m_rets : list (nat * nat * Z) }.
+Record mthread := { m_pc : mpc; m_todo : list mcmd; m_rets : list (nat * nat * mres) }.
 
 Record mstate := {
   m_lock : lock;
-  m_cache : nat -> option Z;
+  m_cache : nat -> option mres;   (* absent | entry holding a result (possibly [None]) *)
   m_calls : nat -> nat;        (* COMPLETED body executions per key since the last [cache.clear()] *)
   m_total : nat;               (* body executions overall (completed or aborted) *)
   m_invals : nat;              (* [cache.clear()]s executed *)
@@ -669,7 +683,7 @@ Definition mset_th (s : mstate) (t : nat) (x : mthread) : mstate :=
   {| m_lock := m_lock s; m_cache := m_cache s; m_calls := m_calls s; m_total := m_total s;
      m_invals := m_invals s; m_th := upd (m_th s) t x |}.
 
-Definition mstep (bv : nat -> nat -> option Z) (s : mstate) (t : nat) : option mstate :=
+Definition mstep_gen (sentinel : bool) (bv : nat -> nat -> option mres) (s : mstate) (t : nat) : option mstate :=
   let th := m_th s t in
   match m_pc th with
   | PIdle =>
@@ -685,7 +699,11 @@ Definition mstep (bv : nat -> nat -> option Z) (s : mstate) (t : nat) : option m
       else None                                          (* blocked *)
     end
   | PLookup k =>
-    Some (mset_th s t {| m_pc := match m_cache s k with
+    (* what the lookup finds: the entry, if the key is present — whatever it holds *)
+    let found := if sentinel
+                 then match m_cache s k with Some None => None | x => x end   (* variant: [.get() is None] *)
+                 else m_cache s k in
+    Some (mset_th s t {| m_pc := match found with
                                  | Some v => PRelease (Some (k, v))   (* [return cache[arguments]] *)
                                  | None => PBody k               (* [except KeyError] *)
                                  end;
@@ -707,7 +725,8 @@ Definition mstep (bv : nat -> nat -> option Z) (s : mstate) (t : nat) : option m
                                         m_todo := m_todo th; m_rets := m_rets th |} |}
     end
   | PStore k v =>
-    let c' := match m_cache s k with Some _ => m_cache s | None => upd (m_cache s) k (Some v) end in
+    let c' := if sentinel then upd (m_cache s) k (Some v)     (* variant: [cache[arguments] = ...] *)
+              else match m_cache s k with Some _ => m_cache s | None => upd (m_cache s) k (Some v) end in
     Some {| m_lock := m_lock s; m_cache := c'; m_calls := m_calls s; m_total := m_total s;
             m_invals := m_invals s;
             m_th := upd (m_th s) t {| m_pc := PRelease (option_map (pair k) (c' k)); m_todo := m_todo th;
@@ -728,8 +747,144 @@ Definition mstep (bv : nat -> nat -> option Z) (s : mstate) (t : nat) : option m
                                       m_rets := m_rets th |} |}
   end.
 
+(** the real wrapper *)
+Definition mstep := Eval cbv beta iota zeta delta [mstep_gen] in mstep_gen false.
+
 (** all threads idle with their programs, empty cache, free lock *)
 Definition minit (prog : nat -> list mcmd) : mstate :=
   {| m_lock := free_lock; m_cache := fun _ => None; m_calls := fun _ => 0; m_total := 0;
      m_invals := 0;
      m_th := fun t => {| m_pc := PIdle; m_todo := prog t; m_rets := [] |} |}.
+
+(** *** sequential use: ONE thread executes a history of calls and invalidations to
+    completion (a command takes at most five micro-steps: acquire, lookup, body, store,
+    release; picks of a finished thread are no-ops) *)
+Definition seq_prog (cmds : list mcmd) (t : nat) : list mcmd := if Nat.eqb t 0 then cmds else [].
+Definition seq_sched (cmds : list mcmd) : list nat := repeat 0 (5 * length cmds).
+Definition mseq_gen (sentinel : bool) (bv : nat -> nat -> option mres) (cmds : list mcmd) : mstate :=
+  run_sched (mstep_gen sentinel bv) (minit (seq_prog cmds)) (seq_sched cmds).
+Definition mseq (bv : nat -> nat -> option mres) (cmds : list mcmd) : mstate :=
+  run_sched (mstep bv) (minit (seq_prog cmds)) (seq_sched cmds).
+
+(** per command: body executions so far, and the results returned so far *)
+Definition mseq_trace (bv : nat -> nat -> option mres) (cmds : list mcmd)
+  : list (nat * list (nat * nat * mres)) :=
+  map (fun n => let s := mseq bv (firstn n cmds) in (m_total s, m_rets (m_th s 0)))
+      (seq 1 (length cmds)).
+
+(** ** 4. The win-size-swap toggles against concurrent [get_cell_size] calls
+
+    [enable_win_size_swap()] / [disable_win_size_swap()], [__init__.py:107-110, 140-143]:
+
+        if utils._swap_win_size != b:            (test)
+            utils._swap_win_size = b             (flag write — FIRST, outside the lock)
+            with utils._cell_size_lock:          (acquire)
+                utils._cell_size_cache[:] = (0,) * 4      (clear)
+                                                 (release)
+
+    [get_cell_size()], [utils.py:427-473]: acquire [_cell_size_lock]; compare the terminal
+    size with the cache key (hit: return the entry); on a miss compute: the LAST thing
+    the computation reads is [_swap_win_size], [utils.py:466], then it writes the cache,
+    [utils.py:471]; release.  The flag read and the cache write are both inside the lock
+    region.
+
+    Threads execute programs of [WToggle b] (enable: [b = true]) and [WGet].  The
+    terminal (size in cells and pixels) is fixed here — resizes are part 1 —, so a cache
+    entry is represented by the flag value it was computed under: [w_cache = Some f].
+
+    [wstep_gen true] is the VARIANT that writes the flag AFTER the lock region (clear
+    first, then switch); it exists only to state that it admits a schedule leaving a
+    stale entry.  [wstep] is [wstep_gen false], the real code. *)
+
+Inductive wcmd := WToggle (b : bool) | WGet.
+
+Inductive wpc :=
+| WIdle
+| WSetFlag (b : bool)   (* about to [utils._swap_win_size = b] *)
+| WAcq (b : bool)       (* about to enter [with utils._cell_size_lock:] *)
+| WClear (b : bool)     (* lock held; about to zero [_cell_size_cache] *)
+| WRel (b : bool)       (* about to leave the [with] block *)
+| GLook                 (* [get_cell_size]: lock held; about to compare with the cache key *)
+| GRead                 (* miss; computing; about to read [_swap_win_size] *)
+| GWrite (f : bool)     (* about to write the cache with the value computed under [f] *)
+| GRel (f : bool).      (* about to release and return the value computed under [f] *)
+
+Record wthread := { w_pc : wpc; w_todo : list wcmd; w_rets : list bool }.
+
+Record wstate := {
+  w_lock : lock;              (* [utils._cell_size_lock] *)
+  w_flag : bool;              (* [utils._swap_win_size] *)
+  w_cache : option bool;      (* live entry for the current terminal size: the flag it was computed under *)
+  w_ncomp : nat;              (* computations made *)
+  w_th : nat -> wthread
+}.
+
+Definition wset (s : wstate) (t : nat) (pc : wpc) : wstate :=
+  {| w_lock := w_lock s; w_flag := w_flag s; w_cache := w_cache s; w_ncomp := w_ncomp s;
+     w_th := upd (w_th s) t {| w_pc := pc; w_todo := w_todo (w_th s t); w_rets := w_rets (w_th s t) |} |}.
+
+Definition wstep_gen (late : bool) (s : wstate) (t : nat) : option wstate :=
+  let th := w_th s t in
+  match w_pc th with
+  | WIdle =>
+    match w_todo th with
+    | [] => None
+    | WToggle b :: rest =>                       (* [if utils._swap_win_size != b:] *)
+      Some {| w_lock := w_lock s; w_flag := w_flag s; w_cache := w_cache s; w_ncomp := w_ncomp s;
+              w_th := upd (w_th s) t
+                          {| w_pc := if Bool.eqb (w_flag s) b then WIdle
+                                     else if late then WAcq b else WSetFlag b;
+                             w_todo := rest; w_rets := w_rets th |} |}
+    | WGet :: rest =>                            (* [with _cell_size_lock:] *)
+      if can_acquire (w_lock s) t then
+        Some {| w_lock := acquire (w_lock s) t; w_flag := w_flag s; w_cache := w_cache s;
+                w_ncomp := w_ncomp s;
+                w_th := upd (w_th s) t {| w_pc := GLook; w_todo := rest; w_rets := w_rets th |} |}
+      else None
+    end
+  | WSetFlag b =>
+    Some {| w_lock := w_lock s; w_flag := b; w_cache := w_cache s; w_ncomp := w_ncomp s;
+            w_th := upd (w_th s) t {| w_pc := if late then WIdle else WAcq b;
+                                      w_todo := w_todo th; w_rets := w_rets th |} |}
+  | WAcq b =>
+    if can_acquire (w_lock s) t then
+      Some {| w_lock := acquire (w_lock s) t; w_flag := w_flag s; w_cache := w_cache s;
+              w_ncomp := w_ncomp s;
+              w_th := upd (w_th s) t {| w_pc := WClear b; w_todo := w_todo th; w_rets := w_rets th |} |}
+    else None
+  | WClear b =>
+    Some {| w_lock := w_lock s; w_flag := w_flag s; w_cache := None; w_ncomp := w_ncomp s;
+            w_th := upd (w_th s) t {| w_pc := WRel b; w_todo := w_todo th; w_rets := w_rets th |} |}
+  | WRel b =>
+    Some {| w_lock := release (w_lock s); w_flag := w_flag s; w_cache := w_cache s;
+            w_ncomp := w_ncomp s;
+            w_th := upd (w_th s) t {| w_pc := if late then WSetFlag b else WIdle;
+                                      w_todo := w_todo th; w_rets := w_rets th |} |}
+  | GLook =>
+    Some (wset s t (match w_cache s with Some f => GRel f | None => GRead end))
+  | GRead => Some (wset s t (GWrite (w_flag s)))
+  | GWrite f =>
+    Some {| w_lock := w_lock s; w_flag := w_flag s; w_cache := Some f; w_ncomp := S (w_ncomp s);
+            w_th := upd (w_th s) t {| w_pc := GRel f; w_todo := w_todo th; w_rets := w_rets th |} |}
+  | GRel f =>
+    Some {| w_lock := release (w_lock s); w_flag := w_flag s; w_cache := w_cache s;
+            w_ncomp := w_ncomp s;
+            w_th := upd (w_th s) t {| w_pc := WIdle; w_todo := w_todo th;
+                                      w_rets := w_rets th ++ [f] |} |}
+  end.
+
+Definition wstep := Eval cbv beta iota zeta delta [wstep_gen] in wstep_gen false.
+
+(** all threads idle with their programs; flag [f0]; cache [c0] *)
+Definition winit (f0 : bool) (c0 : option bool) (prog : nat -> list wcmd) : wstate :=
+  {| w_lock := free_lock; w_flag := f0; w_cache := c0; w_ncomp := 0;
+     w_th := fun t => {| w_pc := WIdle; w_todo := prog t; w_rets := [] |} |}.
+
+(** a toggle whose flag write has happened but whose clear has not *)
+Definition w_pending (s : wstate) (t : nat) : Prop :=
+  exists b, w_pc (w_th s t) = WAcq b \/ w_pc (w_th s t) = WClear b.
+
+(** the flag under which the value was computed that a [get_cell_size()] running alone
+    from [s] returns: the live entry's, else the current flag's *)
+Definition w_answer (s : wstate) : bool :=
+  match w_cache s with Some f => f | None => w_flag s end.
